@@ -13,6 +13,7 @@ SAN_ENV = {
 
 _frame_re = re.compile(r"#\d+ 0x[0-9a-f]+ in (\S+)(?: (\S+))?")
 _assert_re = re.compile(r"(\S+): (\S+?):(\d+): (.*?): Assertion")
+_notreached_re = re.compile(r"in (\w+) at: \S+?:\d+: execution should not have reached")
 THIRD = ("libelf", "libdw", "libxml2", "libz", "liblzma", "libbz2")
 
 
@@ -48,6 +49,9 @@ def classify(rc, err):
     if outcome is None:
         return None
     site, owner = "unknown", "unknown"
+    m = _notreached_re.search(err)
+    if outcome == "abort" and m:
+        return (outcome, "notreached:" + m.group(1), "libabigail")
     m = _assert_re.search(err)
     if outcome == "abort" and m:
         fn = m.group(4)
@@ -115,9 +119,11 @@ class ToolServer(object):
             if inproc:
                 raise ServerDied()
             raise core.HarnessError("fork server %s died" % self.exe)
-        rc, sig, to, ol, el = [int(x) for x in hdr.split()]
+        rc, sig, to, ol, el, leaving = [int(x) for x in hdr.split()]
         out = self.p.stdout.read(ol) if ol else b""
         err = self.p.stdout.read(el) if el else b""
+        if leaving:
+            self.count = 10 ** 9      # the server exits after this reply (crash survived in-process): start a fresh one next time
         if to:
             return "timeout", out, err
         if sig:
@@ -154,6 +160,19 @@ STATS = {"inproc": 0, "fork": 0, "spawn": 0, "inproc_died": 0, "crosschecked": 0
 FORCE_FORK = bool(os.environ.get("VERIF_NO_INPROC"))
 
 
+def locate(ctx, name, args, stdin=None, timeout=60):
+    """Site of a crash seen on the plain build: repeat the run on the ASan+UBSan build (forked copy)
+    and return the innermost libabigail frame, or None."""
+    try:
+        rc, out, err = run_tool(ctx, "asan", name, args, timeout=timeout, stdin=stdin)
+    except Exception:
+        return None
+    c = classify(rc, err)
+    if c and c[1] != "unknown":
+        return c
+    return None
+
+
 def run_tool(ctx, variant, name, args, timeout=30, stdin=None, env_extra=None, cwd=None, spawn=False, fsize=-1, stdout="pipe", fast=False):
     """Run a tool.  Default: through the per-worker fork server (a fresh forked copy per run, no exec);
     spawn=True: a real process; fast=True: call the tool's main() inside the server process (no fork);
@@ -169,6 +188,8 @@ def run_tool(ctx, variant, name, args, timeout=30, stdin=None, env_extra=None, c
         try:
             r = s.request(args, timeout=timeout, stdin=stdin, inproc=True)
             STATS["inproc"] += 1
+            if r[0] == "timeout":
+                raise ServerDied()      # repeat in a forked copy with the longer limit
             if STATS["inproc"] % 64 == 1:
                 r2 = s.request(args, timeout=timeout, stdin=stdin)
                 STATS["crosschecked"] += 1
